@@ -13,6 +13,7 @@ CONSTANTS
   Local = {}
   MonPairs = {}
   Undecodable = {}
+  SweepKillsDraining = {TRUE}
 INVARIANTS
   OrderOk PostStopOnlyGraceful NoOverlap NoStartAfterKill NoHandlerAfterStop KillWins SupBeforeMsg
   OneTerminal TerminalIffRan StartedOrder DeadMeansClean FailedStartSilent DeadLeavesNothing NoChildOfDead
